@@ -933,10 +933,17 @@ class SamplingMethod(DirectMethod):
                                                                DT=DT,
                                                                DT_control=DT_control))
 
+    def horizon_guesses_first(self, stage, initial):
+        # Guesses for t0 and T go first: guesses that depend on time are evaluated with them
+        horizon = [stage.T, stage.t0] + [e for e in [stage._T, stage._t0] if isinstance(e, MX)]
+        for var in reversed([v for v in initial.keys() if any(is_equal(v, h) for h in horizon)]):
+            initial.move_to_end(var, last=False)
+
     def set_initial(self, stage, master, initial):
         opti = master.opti if hasattr(master, 'opti') else master
         opti.cache_advanced()
         initial = HashOrderedDict(initial)
+        self.horizon_guesses_first(stage, initial)
         algs = get_ranges_dict(stage.algebraics)
         initial_alg = HashDict()
         for a, v in list(initial.items()):
